@@ -47,7 +47,7 @@ def run(tier):
             run.model_drift("%s on %s %s: class %s, dim %s, region %s" % (clause, r["kind"], r["desc"], r["cls"], r["dim_wrapped"], r["region"]))
             continue
         run.violation("C17 clause=%s kind=%s desc=%s params=%s" % (clause, r["kind"], sorted(r["desc"].items()), sorted(r["params"].items())),
-                      "%s: class=%s dim(wrapped)=%s error=%r on %s %s" % (clause, r["cls"], r["dim_wrapped"], r["error"], r["kind"], r["desc"]), r)
+                      "%s: class=%s dim(wrapped)=%s error=%r on %s %s" % (clause, r["cls"], r.get("dim_wrapped"), r["error"], r["kind"], r["desc"]), r)
     hist = {}
     for r in keep:
         hist[r["cls"]] = hist.get(r["cls"], 0) + 1
